@@ -16,6 +16,13 @@ PROPS = {
         technique='contract-based deductive verification (Verus postconditions + induction lemmas on mechanically extracted code; Kani full-domain harnesses on the real crate)',
         design_ref='DESIGN.md §4 C27',
     ),
+    'C25': dict(
+        title='Value and log encodings round-trip safely',
+        kani=['c25_value'],
+        verus=['c25_value'],
+        pairs={},
+        level_text='TBD', level_note='TBD', technique='TBD', design_ref='DESIGN.md §4 C25',
+    ),
 }
 
 # claimed in DESIGN.md but whose check is not built yet: listed under not_applicable until it is
@@ -24,7 +31,6 @@ PENDING = {
     'C18': 'check under construction (claimed in DESIGN.md §4; will move to checks when its units are committed)',
     'C20': 'check under construction (claimed in DESIGN.md §4; will move to checks when its units are committed)',
     'C23': 'check under construction (claimed in DESIGN.md §4; will move to checks when its units are committed)',
-    'C25': 'check under construction (claimed in DESIGN.md §4; will move to checks when its units are committed)',
     'C26': 'check under construction (claimed in DESIGN.md §4; will move to checks when its units are committed)',
     'C28': 'check under construction (claimed in DESIGN.md §4; will move to checks when its units are committed)',
 }
